@@ -60,7 +60,7 @@ func burstGen() *rapid.Generator[Case] {
 
 func unknownGen() *rapid.Generator[Case] {
 	nm := rapid.Custom(func(t *rapid.T) gen.Str {
-		return gen.Str(gen.StringOf([]string{"", "utf8", "utf8-light ", "UTF8-LIGHT", "none.", "texttable", "csv", "x", "-", "utf8-heavy\x00", " ", "ascii", "ascii-simple-", "Z"}, 0, 2).Draw(t, "name"))
+		return gen.Str(gen.StringOf([]string{"", "utf8", "utf8-light ", "UTF8-LIGHT", "none.", "texttable", "csv", "html", "json", "markdown", "CSV", "Texttable", "x", "-", "utf8-heavy\x00", " ", "ascii", "ascii-simple-", "Z"}, 0, 2).Draw(t, "name"))
 	})
 	// look-alikes of the names that ARE registered: qualified, padded, re-cased, truncated, doubled
 	variant := rapid.Custom(func(t *rapid.T) gen.Str {
